@@ -72,7 +72,7 @@ pub fn static_focus(focus: &str) -> &'static str {
 /// Draws the configuration of history `index` of a sequential run focused on `focus`.
 pub fn seq_cfg(focus: &'static str, seed: u64, index: u64, clean_only: bool) -> SeqCfg {
     let mut rng = rt::rng_for(seed, index, 0xC0F);
-    let n_keys = rng.range(3, 8);
+    let n_keys = if focus == "C06" { rng.range(6, 14) } else { rng.range(3, 8) };
     let shards = *rng.pick(&[2usize, 2, 2, 2, 4, 4, 8, 16]);
     let shards = if rng.chance(1, 60) { 256 } else { shards };
     let pressure = match focus {
@@ -81,7 +81,7 @@ pub fn seq_cfg(focus: &'static str, seed: u64, index: u64, clean_only: bool) -> 
         "C02" => rng.chance(2, 3),
         _ => false,
     };
-    let weight_mode = if rng.chance(1, 2) { WeightMode::Default } else { WeightMode::Custom };
+    let weight_mode = if focus == "C06" || rng.chance(1, 2) { WeightMode::Custom } else { WeightMode::Default };
     // no-pressure budget: every key may demand up to cap (+24 for a TTL entry); C03 keeps the budget tight so that
     // weight that is wrongly kept charged soon turns into (forbidden) eviction or rejection
     let lenient_weights = focus == "C03";
